@@ -271,7 +271,11 @@ func (m *RefLockDB) cancel(k *Key, client string, c Cmd) []Reply {
 			break
 		}
 	}
-	return []Reply{{client, c.Req, LOCKED_ERROR, d, 0}, {w.Client, w.Req, UNLOCK_ERROR, d, 0}}
+	out := []Reply{{client, c.Req, LOCKED_ERROR, d, 0}, {w.Client, w.Req, UNLOCK_ERROR, d, 0}}
+	if d > 0 {
+		out = append(out, m.wake(k)...) // the request behind the cancelled one may now be admissible
+	}
+	return out
 }
 
 // Expire feeds an observed EXPRIED notice for request req on key into the model.
@@ -288,14 +292,18 @@ func (m *RefLockDB) Expire(key byte, id byte, req byte) ([]Reply, error) {
 	return m.wake(k), nil
 }
 
-// Timeout feeds an observed TIMEOUT of a queued request into the model.
-func (m *RefLockDB) Timeout(key byte, req byte) error {
+// Timeout feeds an observed TIMEOUT of a queued request into the model; the requests behind it may
+// become admissible next to the current holders.
+func (m *RefLockDB) Timeout(key byte, req byte) ([]Reply, error) {
 	k := m.key(key)
 	for i, w := range k.Waits {
 		if w.Req == req {
 			k.Waits = append(k.Waits[:i], k.Waits[i+1:]...)
-			return nil
+			if k.DepthSum() > 0 {
+				return m.wake(k), nil
+			}
+			return nil, nil
 		}
 	}
-	return fmt.Errorf("TIMEOUT for request %d on key %d which is not queued", req, key)
+	return nil, fmt.Errorf("TIMEOUT for request %d on key %d which is not queued", req, key)
 }
